@@ -32,6 +32,7 @@ FAMILY = {
     'cut_forms': "start: 'a' ~ 'b' | 'a' 'c' ;\n",
     'leftrec': "start: e $ ;\ne: e '+' t | t ;\nt: /[0-9]/ | '(' ~ e ')' ;\n",
     'long_rule': "start: " + " | ".join(f"'k{i}' 'v{i}'" for i in range(14)) + " ;\n",
+    'many_keywords': ''.join('@@keyword :: ' + ' '.join(f'kw{i:02d}' for i in range(j, j + 6)) + '\n' for j in range(0, 30, 6)) + "@@keyword :: 'a b' zz\nstart: {word}+ $ ;\n@name\nword: /[a-z]+[0-9]*/ ;\n",
     'params_based': "start: d | b ;\nb(X): x='a' ;\nd(S, 2) < b: y='b' ;\n",
     'whitespace_none': "@@whitespace :: None\nstart: 'a' 'b' {/ /} $ ;\n",
     'whitespace_novalue': "@@whitespace ::\n@@nameguard :: False\nstart: 'a' 'b' {/ /} $ ;\n",
@@ -42,7 +43,7 @@ ANTLR = {
     'antlr_list': "grammar L;\nstart: '[' items+=item (',' items+=item)* ']' | name ;\nitem: x=name | pair=('(' start ')') ;\nname: 'a' | 'b' ;\n",
 }
 QUICK = ['directives', 'keywords', 'params', 'based', 'nomemo_override', 'eol_skipto', 'pattern_slash', 'pattern_backslash_slash', 'token_quotes', 'token_backslash', 'joins', 'named_forms',
-         'lookaheads_groups', 'alerts_constants', 'typed', 'dot_void_fail', 'include', 'params_based', 'whitespace_none']
+         'lookaheads_groups', 'alerts_constants', 'typed', 'dot_void_fail', 'include', 'params_based', 'whitespace_none', 'many_keywords']
 
 
 def make_quoting(spec):
